@@ -137,16 +137,18 @@ theorem post_sim {bA bB : PState → Res × PState} (h : SimB Q bA bB)
   rw [h1] at e1 e2
   exact ⟨tB', e1, e2⟩
 
-theorem bodyNode_sim (hQ : QOK Q) {pA pB : SubParser} (h : Sim Q pA pB) (k : Nat) (nd : Node)
-    (hws : nd.ws = none) (hsk : nd.skipws = none) (heol : nd.eolterm = false) :
+/-- the `_parse` methods map simulating sub-parsers to simulating bodies, provided the two context
+managers of the node (`ws` / `skipws` of sequences and choices, `eolterm` of repetitions) do -/
+theorem bodyNode_sim_gen (hQ : QOK Q) {pA pB : SubParser} (h : Sim Q pA pB) (k : Nat) (nd : Node)
+    (hctx : ∀ {bA bB : PState → Res × PState}, SimB Q bA bB → SimB Q (withWsCtx nd bA) (withWsCtx nd bB))
+    (heolc : ∀ {bA bB : PState → Res × PState}, SimB Q bA bB → SimB Q (withEol nd bA) (withEol nd bB)) :
     SimB Q (bodyNode pA k nd) (bodyNode pB k nd) := by
   have hp : ∀ e, SimB Q (fun s => pA e s) (fun s => pB e s) := fun e sA sB r tA hq h1 hr => h e sA sB r tA hq h1 hr
   intro sA sB r tA hq h1 hr
   unfold bodyNode at h1 ⊢
-  simp only [withWsCtx_uniform nd hws hsk, withEol_uniform nd heol] at h1 ⊢
   cases hkind : nd.kind <;> simp only [hkind] at h1 ⊢
   case seq =>
-    exact post_sim (fun sA sB r tA hq h1 hr => seqLoop_sim hQ h nd.kids sA sB [] r tA hq h1 hr)
+    exact post_sim (hctx (fun sA sB r tA hq h1 hr => seqLoop_sim hQ h nd.kids sA sB [] r tA hq h1 hr))
       (fun c x => match x with | (.nomatch, s2) => (.nomatch, { s2 with pos := c }) | r => r)
       (by intro c x hx; obtain ⟨r, s2⟩ := x; simp at hx; subst hx; rfl)
       (by intro c r tA tB hq
@@ -158,10 +160,11 @@ theorem bodyNode_sim (hQ : QOK Q) {pA pB : SubParser} (h : Sim Q pA pB) (k : Nat
       hQ.pos sA sB r tA hq h1 hr
   case choice =>
     rw [← hQ.pos hq]
-    cases hb : choiceLoop pA nd.kids sA.pos sA with | mk r1 s1 =>
+    cases hb : withWsCtx nd (fun s1 => choiceLoop pA nd.kids sA.pos s1) sA with | mk r1 s1 =>
     rw [hb] at h1
     have hne : r1 ≠ .fuel := by intro e; subst e; (try simp only [] at h1); cases h1; exact hr rfl
-    obtain ⟨tB1, hB, hq1⟩ := choiceLoop_sim hQ h nd.kids sA.pos sA sB r1 s1 hq hb hne
+    obtain ⟨tB1, hB, hq1⟩ := hctx (fun sA' sB' r tA hq h1 hr => choiceLoop_sim hQ h nd.kids sA.pos sA' sB' r tA hq h1 hr)
+      sA sB r1 s1 hq hb hne
     rw [hB]
     rcases r1 with v | _ | _ | _
     · (try simp only [] at h1 ⊢); cases h1; exact ⟨tB1, rfl, hq1⟩
@@ -192,17 +195,23 @@ theorem bodyNode_sim (hQ : QOK Q) {pA pB : SubParser} (h : Sim Q pA pB) (k : Nat
     | nil => simp only [hkids] at h1 ⊢; cases h1; exact ⟨sB, rfl, hq⟩
     | cons e es =>
       cases es with
-      | nil => simp only [hkids] at h1 ⊢; exact repLoop_sim hQ h e nd.sep k sA sB [] false false r tA hq h1 hr
+      | nil =>
+        simp only [hkids] at h1 ⊢
+        exact heolc (fun sA sB r tA hq h1 hr => repLoop_sim hQ h e nd.sep k sA sB [] false false r tA hq h1 hr)
+          sA sB r tA hq h1 hr
       | cons e2 es2 => simp only [hkids] at h1 ⊢; cases h1; exact ⟨sB, rfl, hq⟩
   case plus =>
     cases hkids : nd.kids with
     | nil => simp only [hkids] at h1 ⊢; cases h1; exact ⟨sB, rfl, hq⟩
     | cons e es =>
       cases es with
-      | nil => simp only [hkids] at h1 ⊢; exact repLoop_sim hQ h e nd.sep k sA sB [] true false r tA hq h1 hr
+      | nil =>
+        simp only [hkids] at h1 ⊢
+        exact heolc (fun sA sB r tA hq h1 hr => repLoop_sim hQ h e nd.sep k sA sB [] true false r tA hq h1 hr)
+          sA sB r tA hq h1 hr
       | cons e2 es2 => simp only [hkids] at h1 ⊢; cases h1; exact ⟨sB, rfl, hq⟩
   case unord =>
-    exact post_sim (fun sA sB r tA hq h1 hr => unordLoop_sim hQ h nd.sep k nd.kids sA sB [] true none r tA hq h1 hr)
+    exact post_sim (heolc (fun sA sB r tA hq h1 hr => unordLoop_sim hQ h nd.sep k nd.kids sA sB [] true none r tA hq h1 hr))
       (fun c x => match x with | (.nomatch, s2) => (.nomatch, ({ s2 with pos := c }).nmRaise c) | r => r)
       (by intro c x hx; obtain ⟨r, s2⟩ := x; simp at hx; subst hx; rfl)
       (by intro c r tA tB hq
@@ -251,5 +260,19 @@ theorem bodyNode_sim (hQ : QOK Q) {pA pB : SubParser} (h : Sim Q pA pB) (k : Nat
           hQ.pos sA sB r tA hq h1 hr
       | cons e2 es2 => simp only [hkids] at h1 ⊢; cases h1; exact ⟨sB, rfl, hq⟩
   all_goals (cases h1; exact ⟨sB, rfl, hq⟩)
+
+/-- nodes without `ws` / `skipws` modifier and without `eolterm` -/
+theorem bodyNode_sim (hQ : QOK Q) {pA pB : SubParser} (h : Sim Q pA pB) (k : Nat) (nd : Node)
+    (hws : nd.ws = none) (hsk : nd.skipws = none) (heol : nd.eolterm = false) :
+    SimB Q (bodyNode pA k nd) (bodyNode pB k nd) :=
+  bodyNode_sim_gen hQ h k nd
+    (fun {bA bB} hb => by
+      rw [show withWsCtx nd bA = bA from funext (withWsCtx_uniform nd hws hsk bA),
+          show withWsCtx nd bB = bB from funext (withWsCtx_uniform nd hws hsk bB)]
+      exact hb)
+    (fun {bA bB} hb => by
+      rw [show withEol nd bA = bA from funext (withEol_uniform nd heol bA),
+          show withEol nd bB = bB from funext (withEol_uniform nd heol bB)]
+      exact hb)
 
 end Peg
